@@ -146,6 +146,11 @@ func (w *World) loadContracts(dirs []string) error {
 			continue
 		}
 		pi.cf = cf
+		for k := range cf.Contracts {
+			if strings.Contains(k, "/") && strings.HasPrefix(strings.TrimLeft(k, "(*"), repoModule+"/") {
+				fmt.Fprintf(os.Stderr, "warning: %s: contract key %q names a function of this repository by its full name: such keys are only honoured for library functions and are IGNORED here; put the contract in the contract file of the function's own package\n", found, k)
+			}
+		}
 		// extra imports declared for specifications
 		for alias, path := range cf.Imports {
 			if ip := pi.pkg.Imports[path]; ip != nil && ip.Types != nil {
